@@ -360,3 +360,35 @@ def iri_resolution_rule(repo: Repo, rep: Report) -> None:
                    "%s: the reference is resolved with urljoin: with base <http://example/> the legal references <a?> and <o;> (and, for a base of the same scheme, "
                    "the absolute <http://example/a?>) become <http://example/a> and <http://example/o>, where the Turtle parser reads <http://example/a?> and "
                    "<http://example/o;> from the same spelling" % what, node=c)
+
+
+_run_base = run
+
+
+def run(repo: Repo, rep: Report) -> None:  # noqa: F811
+    _run_base(repo, rep)
+    from vlib import memo
+
+    rep.rule("C05.e-parser-memos-key-complete",
+             "every memo of a parser class (a dict attribute that a method both looks a key up in and fills under that key: blank-node label maps, resolved-reference "
+             "caches ...) is keyed by everything its value is computed from: an instance attribute the value reads and that a later method re-binds (the base IRI after "
+             "@base / BASE, the current graph ...) is part of the key, or re-binding it invalidates the memo", floor=6)
+    mods = [m for m in repo.modules if m.startswith("rdflib.plugins.parsers.") or m.startswith("rdflib.plugins.shared.jsonld.")]
+    memo.scan(repo, rep, "C05.e-parser-memos-key-complete", sorted(mods))
+
+    # (f) xml:lang="" is a value
+    from vlib import truthy as _tr
+
+    rep.rule("C05.f-empty-xml-lang-is-a-value",
+             "RDF/XML parser: the in-scope language (xml:lang, inherited down the element stack) is compared with None by identity; xml:lang=\"\" switches the "
+             "inherited language off, so the empty string must not be treated like an absent attribute", floor=1)
+    rx = repo.mod("rdflib.plugins.parsers.rdfxml")
+    for q, f in rx.functions():
+        for n in own_nodes(f):
+            if isinstance(n, ast.Compare) and isinstance(n.ops[0], (ast.Is, ast.IsNot)) and isinstance(n.comparators[0], ast.Constant) and n.comparators[0].value is None \
+                    and norm(n.left).split(".")[-1] in ("language", "literalLang"):
+                rep.ob("C05.f-empty-xml-lang-is-a-value", rx, q, n, True, "by identity", node=n)
+        for e, owner, kind in _tr.bool_contexts(f):
+            if norm(e).split(".")[-1] in ("language", "literalLang") and isinstance(e, (ast.Name, ast.Attribute)):
+                rep.ob("C05.f-empty-xml-lang-is-a-value", rx, q, "%s [in %s: %s]" % (norm(e), kind, norm(getattr(owner, "test", owner))[:60]), False,
+                       "%s is None or a string; xml:lang=\"\" (empty string, falsy) is an explicit `no language` and must not take the `attribute absent` path: literals below would inherit the ancestor's language tag" % norm(e), node=e)
